@@ -733,10 +733,9 @@ func (k msgServer) ClaimCouncilor(
 	if !found {
 		return nil, errors.Wrap(types.ErrNotEnoughPermissions, "network actor not found")
 	}
-	err := actor.Permissions.AddToWhitelist(types.PermCreatePollProposal)
-	if err == nil {
-		k.keeper.SaveNetworkActor(ctx, actor)
-	}
+	// whitelist through the keeper so that the permission -> address index is written as well;
+	// an already whitelisted / blacklisted permission is not an error here
+	_ = k.keeper.AddWhitelistPermission(ctx, actor, types.PermCreatePollProposal)
 
 	councilor := types.NewCouncilor(msg.Address, types.CouncilorActive)
 	k.keeper.SaveCouncilor(ctx, councilor)
@@ -784,7 +783,7 @@ func (k msgServer) ClaimCouncilor(
 		})
 	}
 
-	err = k.keeper.RegisterIdentityRecords(ctx, msg.Address, identityInfo)
+	err := k.keeper.RegisterIdentityRecords(ctx, msg.Address, identityInfo)
 	if err != nil {
 		return nil, err
 	}
